@@ -106,7 +106,7 @@ def regs_str(r) -> str:
             f"sc[{sc}] e{r['engine_views']}")
 
 
-ACTIONS = ("collect", "count", "show", "columns", "sqltext", "schema", "bad")
+ACTIONS = ("collect", "count", "show", "columns", "sqltext", "schema", "bad", "topandas", "toarrow")
 
 
 def impl_step_str(st, ob) -> str:
